@@ -253,11 +253,15 @@ def corpus():
         {"kind": "script", "ops": [["begin"], ["add", u1], ["reopen"]]},           # pending lost
         {"kind": "script", "ops": [["begin"], ["add", u1], ["abort"], ["begin"], ["add", u2], ["commit"]]},
         {"kind": "script", "ops": []},
+        # nothing but C38-sqlite-sha1s deviates here
+        {"kind": "script", "check_sqlite_sha1s": True,
+         "ops": wf([{"revid": b"r9", "sha": sha(b"9"), "tree": sha(b"8"), "test": None,
+                     "objs": [[False, sha(b"7"), b"f", b"r9"], [True, sha(b"8"), b"TREE_ROOT", b"r9"]]}]) + [["reopen"]]},
     ]
 
 
 def cases(rng, tier):
-    nreal, nsyn = (10, 70) if tier == "quick" else (120, 1500)
+    nreal, nsyn = (10, 70) if tier == "quick" else (100, 1000)
     for i in range(nreal):
         yield dict(_real_updates(rng, rng.randint(2, 5)), mode=rng.choice(["each", "batch", "batch", "abort", "pending"]),
                    seed=rng.randrange(1 << 30), cross=(i % 7 == 3))
